@@ -36,14 +36,14 @@ type Ctx struct {
 }
 
 type line struct {
-	T      string            `json:"t"`
-	Counts map[string]int64  `json:"counts,omitempty"`
-	Key    string            `json:"key,omitempty"`
-	Keys   []uint64          `json:"keys,omitempty"`
-	Sample interface{}       `json:"sample,omitempty"`
-	Viol   *Violation        `json:"viol,omitempty"`
+	T      string                 `json:"t"`
+	Counts map[string]int64       `json:"counts,omitempty"`
+	Key    string                 `json:"key,omitempty"`
+	Keys   []uint64               `json:"keys,omitempty"`
+	Sample interface{}            `json:"sample,omitempty"`
+	Viol   *Violation             `json:"viol,omitempty"`
 	Meta   map[string]interface{} `json:"meta,omitempty"`
-	Msg    string            `json:"msg,omitempty"`
+	Msg    string                 `json:"msg,omitempty"`
 }
 
 func (c *Ctx) emit(l line) {
